@@ -129,6 +129,26 @@ def gen_case(tape, tier):
         else:
             ops.append({"op": "map", "values": {r: tape.choose(2, "value") for r, d in w["inputs"].items() if d["kind"] == "scalar"},
                         "entry": tape.pick(["map", "map", "map_async"], "map-entry"), "again": tape.pick(["map", "map_async"], "again")})
+    if tape.coin(0.12, "bound-shadow-scenario"):
+        # a root argument that is bound in a cached function but still consumed, unbound, by a function upstream of it: two
+        # calls that differ only in that argument are two different computations
+        cands = []
+        for fd in w["functions"]:
+            if fd["name"] not in cached:
+                continue
+            ups = [g for g in w["functions"] if g["name"] in upstream(w, fd["outputs"][0]) and g is not fd]
+            for r in fd["params"]:
+                if r in w["inputs"] and w["inputs"][r]["kind"] == "scalar" and any(r in g["params"] and r not in g.get("bound", {}) for g in ups):
+                    cands.append((fd, r))
+        if cands:
+            fd, r = cands[tape.choose(len(cands), "shadow-pick")]
+            _fns, roots = _needed(w, fd["outputs"][0], [])
+            kw = {x: tape.choose(2, "value") for x in roots}
+            kw[r] = 0
+            ops = [{"op": "update_bound", "fn": fd["name"], "param": r, "value": 1, "vkind": "str"},
+                   {"op": "call", "output": fd["outputs"][0], "kwargs": dict(kw)},
+                   {"op": "call", "output": fd["outputs"][0], "kwargs": dict(kw, **{r: 1})},
+                   {"op": "call", "output": fd["outputs"][0], "kwargs": dict(kw)}]
     if tape.coin(0.3, "mutation-scenario"):
         # directed histories: the same call before and after each of two updates of ONE parameter of a function the call
         # depends on (second value possibly almost equal to the first), optionally with the cache files gone in between
